@@ -30,6 +30,11 @@ func fieldIndex(t reflect.Type) map[string]int {
 	return m
 }
 
+// UnionHook, when set, builds the value of a union attribute (an interface-typed struct field with
+// methods) from a {"$union": alternative, "$value": v} node. The gRPC driver sets it (it knows the Go
+// types of the alternatives from its registry); when nil unions are refused as before.
+var UnionHook func(dst reflect.Value, field, alt string, val any) error
+
 // Build constructs a value of type t from a canonical tree.
 func Build(t reflect.Type, tree any) (v reflect.Value, err error) {
 	defer func() {
@@ -91,6 +96,14 @@ func build(dst reflect.Value, tree any) error {
 			i, ok := idx[spec.Norm(k)]
 			if !ok {
 				return fmt.Errorf("no field for attribute %q in %s", k, t)
+			}
+			if f := dst.Field(i); UnionHook != nil && f.Kind() == reflect.Interface && f.Type().NumMethod() > 0 {
+				if alt, uv, ok := vtree.IsUnion(e); ok {
+					if err := UnionHook(f, t.Field(i).Name, alt, uv); err != nil {
+						return fmt.Errorf("%s: %w", k, err)
+					}
+					continue
+				}
 			}
 			if err := build(dst.Field(i), e); err != nil {
 				return fmt.Errorf("%s: %w", k, err)
